@@ -12,7 +12,8 @@ use crate::wire::hx;
 struct Worker {
     child: Child,
     stdin: ChildStdin,
-    stdout: BufReader<ChildStdout>,
+    /// lines of the worker's stdout, read by a helper thread (None = EOF) so that a request can time out
+    lines: std::sync::mpsc::Receiver<Option<String>>,
 }
 
 pub struct Sess {
@@ -85,8 +86,16 @@ impl Sess {
         }
         let mut child = cmd.spawn().expect("spawn worker");
         let stdin = child.stdin.take().unwrap();
-        let stdout = BufReader::new(child.stdout.take().unwrap());
-        self.worker = Some(Worker { child, stdin, stdout });
+        let mut stdout = BufReader::new(child.stdout.take().unwrap());
+        let (tx, lines) = std::sync::mpsc::channel();
+        std::thread::spawn(move || loop {
+            let mut l = String::new();
+            match stdout.read_line(&mut l) {
+                Ok(0) | Err(_) => { let _ = tx.send(None); break; }
+                Ok(_) => { if tx.send(Some(l)).is_err() { break; } }
+            }
+        });
+        self.worker = Some(Worker { child, stdin, lines });
         let d = format!("dir {}", self.dir.display());
         let c = self.cfgline.clone();
         assert_eq!(self.raw(&d).as_deref(), Some("ok"));
@@ -100,13 +109,20 @@ impl Sess {
             self.reap();
             return None;
         }
-        let mut resp = String::new();
-        match w.stdout.read_line(&mut resp) {
-            Ok(0) | Err(_) => {
+        let limit = std::env::var("CVH_REQ_TIMEOUT").ok().and_then(|s| s.parse().ok()).unwrap_or(180u64);
+        match w.lines.recv_timeout(std::time::Duration::from_secs(limit)) {
+            Ok(Some(resp)) => Some(resp.trim_end_matches('\n').to_string()),
+            Ok(None) | Err(std::sync::mpsc::RecvTimeoutError::Disconnected) => {
                 self.reap();
                 None
             }
-            Ok(_) => Some(resp.trim_end_matches('\n').to_string()),
+            Err(std::sync::mpsc::RecvTimeoutError::Timeout) => {
+                // the real code did not return: a hang is a failure of the call itself
+                let _ = w.child.kill();
+                self.reap();
+                self.out.oracle_fail(format!("HANG: the implementation did not answer within {limit} s: {}", &line[..line.len().min(200)]));
+                None
+            }
         }
     }
 
